@@ -11,12 +11,17 @@ UNITS = {
     "time_locks": {"template": "contracts/time_locks.vrs", "rlimit": 30},
     "int_encoders": {"template": "contracts/int_encoders.vrs", "rlimit": 30},
     "conditions_parse": {"template": "contracts/conditions_parse.vrs", "rlimit": 60},
+    "costs": {"template": "contracts/costs.vrs", "rlimit": 30},
 }
 
 
 def K(name, harnesses, complete, bound, tier="quick", function=None, zflags=None, timeout=1800):
     return {"kind": "kani", "name": name, "harnesses": harnesses, "complete": complete, "bound": bound,
             "tier": tier, "function": function, "zflags": zflags or [], "timeout": timeout}
+
+
+def N(name, task, tier="quick"):
+    return {"kind": "native", "name": name, "task": task, "tier": tier}
 
 
 def V(unit, tier="quick"):
@@ -93,6 +98,22 @@ PROPS["C06"] = {
     "not_covered": [
         "lifting through parse_conditions/parse_spends (LIMIT_SPENDS exit, NO_UNKNOWN_CONDS at the opcode dispatch)",
         "permutation invariance of acceptance, cost and aggregates (needs the tier-2 summary spec)",
+    ],
+}
+
+PROPS["C04"] = {
+    "level": "proof",
+    "technique": "Verus contracts on the real cost code (constants, subtract_cost, interned_vbytes, unknown-condition cost indexing) plus exhaustive native evaluation of the 2-byte cost table against the closed form",
+    "level_text": "Deductive proof of the cost constants, of subtract_cost (succeeds iff the charge fits, exact at the limit, frame on failure), of interned_vbytes == sum(atom_len)+2*atoms+3*pairs, and of the low-byte indexing of the unknown-condition table; the 65536 values of compute_unknown_condition_cost are decided exhaustively by evaluating the real function against an independent big-integer closed form.",
+    "level_note": "The accounting invariant of parse_conditions and the driver exits (ret.cost == max_cost - cost_left) are not yet under contract: listed in not_covered. CLVM execution cost is whatever run_program returns (assumed).",
+    "components": [V("costs"), V("conditions_parse"), N("native_cost_table", "cost_table")],
+    "assumptions": [
+        "clvmr cost model (run_program's reported cost) and intern_tree contract",
+        "allocator limits (< 2^32 heap bytes / atoms / pairs) as the precondition of interned_vbytes",
+    ],
+    "not_covered": [
+        "pre-charge accounting invariant in parse_conditions (cost charged before argument parsing, three accumulators)",
+        "cost at the exits of run_block_generator / run_block_generator2 / run_spendbundle and the exact-limit lemma",
     ],
 }
 
